@@ -387,7 +387,10 @@ CLAIMED['C02'] = dict(
          'moves the value; $push appends, keeps the relative order of old elements for every '
          '$position, places $each exactly at xs[:p] ++ es ++ xs[p:], and $slice is the Python '
          'slice the definition names; $addToSet adds exactly the values not already present (by '
-         'the matcher\'s equality) and never removes; $pullAll / $pull (scalar operand) remove '
+         'the matcher\'s equality), each once even when $each repeats it, and never removes; '
+         '$min/$max on an array element replace it or pad the array; $pull follows its path '
+         'through sub-documents and array indexes and does nothing when the path is missing; '
+         '$pullAll on a missing path leaves the document alone; $pullAll / $pull (scalar operand) remove '
          'exactly the equal elements and keep the order of the rest; a replacement stores the new '
          'document with the stored _id kept; an update of a document is a document; an empty '
          'operator document is rejected exactly on emulated servers before 5.0. Tie: chained '
@@ -402,8 +405,10 @@ CLAIMED['C02'] = dict(
          'addressed fields, and by the reference oracle at run time. Positional $ paths, $bit, '
          '$mul are outside the model (reported unmodelled / NotImplementedError on both sides). '
          'replace_spec assumes pyEq id id (false only on duplicate-key sub-documents, which no '
-         'Python dict holds; counterexample kept in Props/C02.lean). Known findings: '
-         'pullall-creates-path, minmax-array-noop, addtoset-each-dups, pull-through-array, boolnum.')
+         'Python dict holds; counterexample kept in Props/C02.lean). Known finding: '
+         'boolnum. Repaired in the library (their witnesses run through oracle and correspondence '
+         'on every run): pullall-creates-path, minmax-array-noop, addtoset-each-dups, '
+         'pull-through-array.')
 
 CLAIMED['C14'] = dict(
     technique='Lean 4 theorems about the model of update_one / replace_one / delete_one and '
